@@ -198,7 +198,9 @@ static VecOut runVecT(const VecSpec& s) {
         }
       }
       r.it = it;
-      r.addr = &*it;
+      // grow_to_at_least may return an iterator to element n-1 that another thread is still adding
+      // (size() already counts it): that element is not published to this thread, so it is not touched
+      r.addr = (kind == kGtaDefault || kind == kGtaVal) ? nullptr : &*it;
       r.startIdx = static_cast<long>(it - v.begin());
       out.push_back(r);
       (void)rng;
